@@ -484,9 +484,11 @@ func (s *UDPNATRelay) relayServerConnToNatConnGeneric(ctx context.Context, uplin
 			_ = uplink.natConn.SetReadDeadline(conn.ALongTimeAgo)
 		}
 
-		s.putQueuedPacket(queuedPacket)
 		packetsSent++
 		payloadBytesSent += uint64(queuedPacket.length)
+
+		// Only now give the packet back: the receive goroutine may reuse it at once.
+		s.putQueuedPacket(queuedPacket)
 	}
 
 	uplink.logger.Info("Finished relay serverConn -> natConn",
